@@ -678,3 +678,89 @@ func (cfg *LifeCfg) GenDebtCombo(t *rapid.T, s *Sim) *Action {
 	a.Timeout = 10
 	return a
 }
+
+// GenPermission: the owner grants / revokes read-write and read-only access.
+func (cfg *LifeCfg) GenPermission(t *rapid.T, s *Sim) *Action {
+	ms := sortedMetas(s.Last)
+	if len(ms) == 0 {
+		return nil
+	}
+	m := ms[rapid.IntRange(0, len(ms)-1).Draw(t, "model")]
+	gw := rapid.SampledFrom(cfg.Providers).Draw(t, "gateway")
+	a := NewAction("permission", gw)
+	a.Owner = s.didIdx(m.Owner)
+	if a.Owner < 0 {
+		return nil
+	}
+	a.DataId = m.DataId
+	var others []int
+	for _, o := range append(append([]int{}, cfg.Owners...), cfg.Sponsors...) {
+		if o != a.Owner {
+			others = append(others, o)
+		}
+	}
+	if len(others) > 0 && rapid.IntRange(0, 3).Draw(t, "grant") > 0 {
+		a.RW = []int{others[rapid.IntRange(0, len(others)-1).Draw(t, "rw")]}
+	}
+	return a
+}
+
+// GenStoreStale: an update signed by an authorised principal (owner or read-write grantee)
+// whose base/new commit field comes from the hostile commit grammar.
+func (cfg *LifeCfg) GenStoreStale(t *rapid.T, s *Sim) *Action {
+	var cands []modeltypes.Metadata
+	for _, m := range sortedMetas(s.Last) {
+		if len(m.Commits) > 0 {
+			cands = append(cands, m)
+		}
+	}
+	if len(cands) == 0 {
+		return nil
+	}
+	m := cands[rapid.IntRange(0, len(cands)-1).Draw(t, "model")]
+	gw := rapid.SampledFrom(cfg.Providers).Draw(t, "gateway")
+	a := NewAction("store", gw)
+	a.Owner = s.didIdx(m.Owner)
+	if len(m.ReadwriteDids) > 0 && rapid.Bool().Draw(t, "byGrantee") {
+		a.Owner = s.didIdx(m.ReadwriteDids[0])
+	}
+	if a.Owner < 0 {
+		return nil
+	}
+	a.PropProv = gw
+	a.DataId = m.DataId
+	cfg.nextCommit++
+	nc := CommitN(cfg.nextCommit)
+	last := latestCommit(m)
+	var older []string
+	for _, v := range m.Commits[:len(m.Commits)-1] {
+		if i := strings.IndexByte(v, 26); i >= 0 {
+			v = v[:i]
+		}
+		older = append(older, v)
+	}
+	shapes := []string{
+		last + "|" + nc,                    // honest
+		"|" + nc,                           // empty base
+		last[:18] + "|" + nc,               // prefix of latest
+		last[18:] + "|" + nc,               // suffix of latest
+		last[5:20] + "|" + nc,              // inner substring
+		"-" + "|" + nc,                     // one character occurring in every id
+		nc,                                 // no separator: the field is the new id only
+		last,                               // re-submitting the latest id itself
+		last + "|" + nc + "|" + CommitN(0), // several separators
+		CommitN(9999) + "|" + nc,           // unrelated base
+	}
+	if len(older) > 0 {
+		shapes = append(shapes, older[rapid.IntRange(0, len(older)-1).Draw(t, "older")]+"|"+nc)
+	}
+	a.Commit = shapes[rapid.IntRange(0, len(shapes)-1).Draw(t, "shape")]
+	a.Alias = m.Alias
+	a.Cid = CidB
+	a.Op = uint32(rapid.IntRange(1, 2).Draw(t, "op"))
+	a.Size = cfg.genSize(t)
+	a.Replica = int32(rapid.IntRange(1, 2).Draw(t, "replica"))
+	a.Duration = cfg.genDur(t)
+	a.Timeout = int32(rapid.IntRange(cfg.TimeoutLo, cfg.TimeoutHi).Draw(t, "timeout"))
+	return a
+}
